@@ -96,6 +96,20 @@ type ChangeOps interface {
 	TryCommit(ctx context.Context) (any, error)
 }
 
+// errDryRunNotFound is the error dryRunOps returns for every read.
+var errDryRunNotFound = errors.New("dry run: no workspace to read from")
+
+// dryRunOps is the ChangeOps used for a dry run: there is no workspace, so every file is absent and
+// every write, mode change and commit is skipped.
+type dryRunOps struct{}
+
+func (dryRunOps) WriteOrCreateFiles(context.Context, ...*File) error { return nil }
+func (dryRunOps) ReadFile(context.Context, string) ([]byte, error)   { return nil, errDryRunNotFound }
+func (dryRunOps) SetBinaryWritable(context.Context, string) error    { return nil }
+func (dryRunOps) IsNotFound(err error) bool                          { return errors.Is(err, errDryRunNotFound) }
+func (dryRunOps) Destroy()                                           {}
+func (dryRunOps) TryCommit(context.Context) (any, error)             { return nil, nil }
+
 // Returns an error if entries has multiple references to the same file, otherwise returns a map of
 // file path to entry as well as digest hexstring to entry.
 func entryMaps(entries []*rpb.VMEndorsementMap_Entry) (files, digests map[string]*rpb.VMEndorsementMap_Entry, err error) {
@@ -391,7 +405,7 @@ func tryChange(ctx context.Context, change func(context.Context, ChangeOps) (str
 	if err != nil {
 		return err
 	}
-	var cops ChangeOps
+	var cops ChangeOps = dryRunOps{}
 	if !ec.DryRun {
 		cops, err = ec.VCS.GetChangeOps(ctx)
 		if err != nil {
